@@ -203,8 +203,9 @@ func (in *c05Inst) lit(t int, path []int, depth int) string {
 			continue
 		}
 		if f.Ptr {
-			if depth >= c05MaxInstDepth {
-				continue // nil
+			if depth >= c05MaxInstDepth || f.Typ > t {
+				// nil: pointers to later types close the embedding cycles (yaegi cannot build such nested literals)
+				continue
 			}
 			parts = append(parts, fmt.Sprintf("%s: &%s", f.Name, in.lit(f.Typ, p, depth+1)))
 		} else {
